@@ -43,7 +43,9 @@ theorem fam_agree (h : expire now c = .ok c') (cfg : Cfg) (q proj : Val) (upd : 
     dsimp only
     split
     · exact .inr ⟨_, rfl, rfl⟩
-    · exact go_agree h cfg q proj (some u) upsert sort after
+    · split
+      · exact .inr ⟨_, rfl, rfl⟩
+      · exact go_agree h cfg q proj (some u) upsert sort after
 
 def outOpt : R (Option Val) → Out
   | .ok v => .val (optVal v)
